@@ -190,6 +190,7 @@ type scenario struct {
 	fsMsg  []byte
 	tm     [][2]string
 	early  int
+	delay  time.Duration // pause of the target between its last message and its final status
 	method *bridgedesc.Method
 
 	mu        sync.Mutex
@@ -199,6 +200,7 @@ type scenario struct {
 	sd        [][]byte
 	sdFail    int
 	tr        string
+	fmd       string // metadata.FromIncomingContext inside Forward ("none" = Forward not entered)
 	oc        string
 	wake      chan struct{}
 	closeSend bool
@@ -217,7 +219,7 @@ var (
 
 func newScenario(kv map[string]string) *scenario {
 	id := seq.Add(1)
-	sc := &scenario{kind: kv["k"], rt: kv["rt"], early: -1, te: "none", oc: "-", tr: "-", wake: make(chan struct{}), done: make(chan struct{}),
+	sc := &scenario{kind: kv["k"], rt: kv["rt"], early: -1, te: "none", oc: "-", tr: "-", fmd: "none", wake: make(chan struct{}), done: make(chan struct{}),
 		fwdDone: make(chan struct{}), sendIn: make(chan struct{}), sendOut: make(chan struct{})}
 	switch {
 	case sc.rt == "real":
@@ -237,6 +239,9 @@ func newScenario(kv map[string]string) *scenario {
 	}
 	if kv["ea"] != "-" && kv["ea"] != "" {
 		sc.early, _ = strconv.Atoi(kv["ea"])
+	}
+	if ms, err := strconv.Atoi(kv["dl"]); err == nil {
+		sc.delay = time.Duration(ms) * time.Millisecond
 	}
 	mt := messageType(kv["cd"])
 	sc.method = &bridgedesc.Method{
@@ -321,6 +326,26 @@ type recFwd struct{ inner grpcadapter.Forwarder }
 func (f recFwd) Forward(ctx context.Context, p grpcadapter.ForwardParams) error {
 	sc := lookup(p.Method.RPCName)
 	p.Incoming = &recStream{inner: p.Incoming, sc: sc}
+	// the request metadata exactly as ProxyForwarder.Forward reads it (keys sorted, values in order)
+	if md, ok := metadata.FromIncomingContext(ctx); ok {
+		keys := make([]string, 0, len(md))
+		for k := range md {
+			keys = append(keys, k)
+		}
+		sort.Strings(keys)
+		var items []string
+		for _, k := range keys {
+			for _, v := range md[k] {
+				items = append(items, CB([]byte(k))+":"+CB([]byte(v)))
+			}
+		}
+		sc.mu.Lock()
+		sc.fmd = "-"
+		if len(items) > 0 {
+			sc.fmd = strings.Join(items, ",")
+		}
+		sc.mu.Unlock()
+	}
 	err := f.inner.Forward(ctx, p)
 	sc.mu.Lock()
 	sc.oc = outcome(err)
@@ -436,6 +461,12 @@ func (t *targetStream) Recv(ctx context.Context, msg proto.Message) error {
 		b := t.sc.rs[t.next]
 		t.next++
 		return proto.Unmarshal(b, msg)
+	}
+	if t.sc.delay > 0 {
+		select {
+		case <-time.After(t.sc.delay):
+		case <-ctx.Done():
+		}
 	}
 	if t.sc.fsCode == 0 {
 		return io.EOF
@@ -618,6 +649,8 @@ func (Area) Exec(input string) string {
 		}
 		st := status.New(codes.Code(code), string(UnCB(f[2])))
 		return CB(webbridge.VerifLpmTrailer(webbridge.VerifTrailerWithStatus(md, st)))
+	case "obs":
+		return execFlushObs(f[1], kvs(f[2:]))
 	case "http":
 		return execHTTP(f[1], kvs(f[2:]))
 	case "ws":
@@ -663,7 +696,7 @@ func (sc *scenario) observed() string {
 	if len(sc.rv) > 0 {
 		rv = strings.Join(sc.rv, ",")
 	}
-	return fmt.Sprintf("rv=%s tg=%s te=%s sd=%s sf=%d tr=%s oc=%s", rv, cbList(sc.tg), sc.te, cbList(sc.sd), sc.sdFail, sc.tr, sc.oc)
+	return fmt.Sprintf("rv=%s tg=%s te=%s sd=%s sf=%d tr=%s md=%s oc=%s", rv, cbList(sc.tg), sc.te, cbList(sc.sd), sc.sdFail, sc.tr, sc.fmd, sc.oc)
 }
 
 func chunkPattern(s string) []int {
@@ -738,6 +771,40 @@ func execHTTP(ver string, kv map[string]string) string {
 		return fmt.Sprintf("CLIENTERR %s hs=%s", common.HexS(rerr.Error()), hs)
 	}
 	return fmt.Sprintf("st=%d hs=%s %s body=%s gd=%s", resp.StatusCode, hs, sc.observed(), CB(body), goDecode(body))
+}
+
+// execFlushObs: OBSERVATION, not a judgement. A server-streaming call whose target sends one small message and then
+// stays silent for `dl` ms before the final status: when does the client see the first body byte? GRPCWebBridge never
+// flushes, so the frame stays in net/http's buffers until the handler returns (first=atend).
+func execFlushObs(ver string, kv map[string]string) string {
+	servers()
+	sc := newScenario(kv)
+	defer registry.Delete(sc.path)
+	srv, cli := srvH1, cliH1
+	if ver == "h2" {
+		srv, cli = srvH2, cliH2
+	}
+	ctx, cancel := context.WithTimeout(context.Background(), 10*watchdog())
+	defer cancel()
+	req, _ := http.NewRequestWithContext(ctx, http.MethodPost, srv.URL+sc.path, bytes.NewReader([]byte{0, 0, 0, 0, 0}))
+	req.Header.Set("Content-Type", "application/grpc-web+proto")
+	t0 := time.Now()
+	resp, err := cli.Do(req)
+	if err != nil {
+		return "CLIENTERR " + common.HexS(err.Error())
+	}
+	defer resp.Body.Close()
+	one := make([]byte, 1)
+	_, err = io.ReadFull(resp.Body, one)
+	tFirst := time.Since(t0)
+	_, _ = io.Copy(io.Discard, resp.Body)
+	tEnd := time.Since(t0)
+	hs := sc.handlerState()
+	first := "atend"
+	if err == nil && tEnd-tFirst > sc.delay/2 {
+		first = "early"
+	}
+	return fmt.Sprintf("st=%d hs=%s first=%s", resp.StatusCode, hs, first)
 }
 
 // ---------------------------------------------------------------------------------------------
@@ -1239,6 +1306,56 @@ func genHTTP(r *rand.Rand) string {
 	return fmt.Sprintf("http %s k=%s cd=%s rt=%s fr=%s tl=%s ck=%s %s ea=%s", ver, kind, codec, rt, fr, CB(tl), ck, genScript(r, codec), ea)
 }
 
+// genHeaderMsg: the first gRPC-WebSocket message (metadata as HTTP/1.1 header lines), well-formed and not
+func genHeaderMsg(r *rand.Rand) []byte {
+	keys := []string{"content-type", "Content-Type", "CONTENT-TYPE", "x-grpc-web", "X-User-Agent", "grpc-timeout", "authorization",
+		"x-a", "a", "A-b-C", "x_1.2", "k!#$%&'*+-.^_`|~9", "te"}
+	vals := []string{"application/grpc-web+proto", "1", "", "a b", "grpc-web-javascript/0.1", "v\twith tab", "caf\xc3\xa9 \xff", "x: y", "=="}
+	var sb []byte
+	used := map[string]bool{}
+	n := common.Pick(r, []int{0, 1, 1, 2, 3, 5})
+	for i := 0; i < n; i++ {
+		k := common.Pick(r, keys)
+		v := common.Pick(r, vals)
+		nl := common.Pick(r, []string{"\r\n", "\r\n", "\r\n", "\n"})
+		sep := common.Pick(r, []string{": ", ": ", ":", ":  ", ":\t ", " : "})
+		if sep == " : " { // a key with a space is kept as written: avoid two that differ by case only (map order)
+			if used[strings.ToLower(k)] {
+				sep = ": "
+			}
+			used[strings.ToLower(k)] = true
+		}
+		line := k + sep + v + common.Pick(r, []string{"", "", " ", "\t"})
+		if r.Intn(6) == 0 { // folded continuation
+			line += nl + common.Pick(r, []string{" ", "\t", "   "}) + common.Pick(r, []string{"more", "", "x  ", "a:b"})
+		}
+		sb = append(sb, line+nl...)
+	}
+	switch r.Intn(14) {
+	case 0: // no final newline: EOF before the empty line
+		if len(sb) > 0 {
+			sb = bytes.TrimRight(sb, "\r\n")
+		}
+	case 1:
+		sb = append(sb, common.Pick(r, []string{"no colon here\r\n", ": empty-key\r\n", "bad\tkey: v\r\n", "k\xc3\xa9y: v\r\n", "k(ey: v\r\n",
+			"k: ctl\x01\r\n", "k: del\x7f\r\n", "k: cr\rinside\r\n", "k: nul\x00\r\n", "a\r\n: b\r\n"})...)
+	case 2:
+		sb = append([]byte(common.Pick(r, []string{" ", "\t", "  x: y\r\n"})), sb...)
+	case 3: // an empty line in the middle: the rest is ignored
+		sb = append(sb, "\r\nthis is: ignored\r\nand this too"...)
+	case 4:
+		sb = append(sb, common.RandBytes(r, 1+r.Intn(6), []byte("a:\r\n \t\x00\xffZ-"))...)
+	case 5: // long lines (no limit applies)
+		sb = append(sb, ("x-long: " + strings.Repeat("v", 5000+r.Intn(3000)) + "\r\n")...)
+	}
+	return sb
+}
+
+func genWSHeader(r *rand.Rand) string {
+	count("ws:header")
+	return fmt.Sprintf("ws k=bd cd=raw rt=%s hd=h:%s ms=f rs=- fs=0:x tm=- ea=-", common.Pick(r, []string{"ok", "ok", "ok", "7:x6e6f"}), CB(genHeaderMsg(r)))
+}
+
 func genWS(r *rand.Rand) string {
 	kind := common.Pick(r, []string{"uu", "cs", "ss", "bd", "bd", "cs"})
 	codec := common.Pick(r, []string{"raw", "raw", "empty"})
@@ -1382,6 +1499,13 @@ func (Area) Gen(r *rand.Rand, tier string, emit func(string)) {
 	}
 	for i := 0; i < nWS; i++ {
 		emit(genWS(r))
+	}
+	nH := 500
+	if tier == "thorough" {
+		nH = 20000
+	}
+	for i := 0; i < nH; i++ {
+		emit(genWSHeader(r))
 	}
 	nT, nB, nS := 6, 12, 2
 	if tier == "thorough" {
